@@ -460,10 +460,18 @@ Catalogue == NoPathsAtoms \cup ParamAtoms \cup FormAtoms \cup SchemaAtoms \cup B
 
 (* --------------------------------------------------------------- compatibility *)
 IsFormMt(a) == a.n \in {"urlenc", "multi", "both"}
+(* the parameters (scope, location, name) an atom declares: its own, and the second parameter some op2 atoms bring in x *)
+PScope(a) == IF a.k \in {"body", "form"} \/ a.w = "op2" THEN "op2" ELSE IF a.w \in {"path", "sharedpath"} THEN "item1" ELSE "op1"
+Declares(a) ==
+   IF a.k \notin {"param", "body", "form"} THEN {}
+   ELSE {<<PScope(a), Opt(a.v, "in"), Opt(a.v, "name")>>}
+        \cup (IF a.k = "param" /\ a.w = "op2" /\ a.x.t = "obj" THEN {<<"op2", Opt(a.x, "in"), Opt(a.x, "name")>>} ELSE {})
 Compatible(X) ==
    /\ \A a, b \in X : a # b => /\ a.slot # b.slot
                                /\ (a.n = "" \/ a.k # b.k \/ a.n # b.n)
    /\ ~(\E a, b \in X : a.k = "body" /\ b.k = "form")
+   \* one scope (operation of /a, path item of /a, operation of /b) declares a parameter (location, name) once
+   /\ \A a, b \in X : a # b => Declares(a) \cap Declares(b) = {}
    \* shared parameters of whatever kind live in one namespace (#/parameters/): one key, one parameter
    /\ \A a, b \in X : (a # b /\ {a.k, b.k} \subseteq {"param", "body", "form"}
                           /\ {a.w, b.w} \subseteq {"shared", "sharedpath"}) => a.n # b.n
